@@ -24,6 +24,9 @@ RTOL = {0: 1e-12, 1: 1e-7, 2: 1e-5, 3: 3e-4}
 HEAVY = {"charm": 4, "bottom": 5, "top": 6}
 
 
+BORDER = 5e-9  # 2 * eps_integration_border * |ln eps_integration_border|, per unit length of the integration range
+
+
 def budget(tier):
     return 280 if tier == "quick" else 1700
 
@@ -209,7 +212,9 @@ def run_case(case):
                     # this is how F-23, 8e-4 of the top-quark gluon kernel, was only 2e-6 of the entry)
                     kernel_level += 1
                     cv_, ce_ = conv.convolve_vector(rsl, interp, xi)
-                    kt = RTOL[o] * max(1.0, steep / 5.0) * float(np.max(svec)) + 5.0 * xi * np.abs(ce_) + 1e-300
+                    # (BORDER: the code stops 1e-10 short of both ends of the integration range, as documented; with ln(1-z) end points
+                    # that costs ~ 2e-10 ln(1e10) / (1 - xi) of the kernel scale: 5e-9 in the bulk, 6e-6 at xi = 0.99925)
+                    kt = (RTOL[o] * max(1.0, steep / 5.0) + BORDER / (1.0 - xi)) * float(np.max(svec)) + 5.0 * xi * np.abs(ce_) + 1e-300
                     km = float(np.max(np.abs(xi * cv_ - vec) / kt))
                     compared += len(vec)
                     classes.add("kernel-level")
@@ -261,7 +266,7 @@ def run_case(case):
             # yadism cuts the integration 1e-10 short of the borders (documented integration note); what is lost there grows with the
             # steepness of the basis functions near the convolution point (~ 1/node spacing in ln x): the rtol was calibrated on
             # 14-node grids (steepness ~ 1-5) and is scaled up on denser ones (measured 1.9e-7 at NLO for steepness 33)
-            tolm = RTOL[o] * max(1.0, steep / 5.0) * smax + 5.0 * errt + 1e-300
+            tolm = (RTOL[o] * max(1.0, steep / 5.0) + BORDER / max(1.0 - min(1.0 - 1e-12, p["x"]), 1e-12)) * smax + 5.0 * errt + 1e-300
             dm = np.abs(got - e)
             m, d = float(np.max(dm[finite_both] / tolm[finite_both])), float(np.max(dm[finite_both]))
             compared += got.size
